@@ -183,6 +183,15 @@ func (i *IRCServer) Unmarshal(data []byte) (uint64, error) {
 		return 0, err
 	}
 
+	// FSM.Restore hands the new IRCServer to the HTTP handlers before the
+	// state is loaded into it, so they can be reading already.
+	i.sessionsMu.Lock()
+	defer i.sessionsMu.Unlock()
+	i.ConfigMu.Lock()
+	defer i.ConfigMu.Unlock()
+	i.lastProcessedMu.Lock()
+	defer i.lastProcessedMu.Unlock()
+
 	for _, s := range snapshot.Sessions {
 		channels := make(map[lcChan]bool, len(s.Channels))
 		for _, channel := range s.Channels {
